@@ -64,6 +64,8 @@ impl PriorityReceiver {
 		}
 
 		// biased: when several queues are ready at wake-up, the more urgent one is served first
+		// a queue that is closed and empty (every Job handle dropped) is left out instead of ending the
+		// wait: the timer still fires and the controls queued in the other queues are still handed out
 		if let Some(timer) = stop_timer.clone() {
 			select! {
 				biased;
@@ -71,15 +73,16 @@ impl PriorityReceiver {
 					*stop_timer = None;
 					Some(timer.to_control())
 				}
-				message = self.urgent.recv() => message,
-				message = self.high.recv() => message,
+				Some(message) = self.urgent.recv() => Some(message),
+				Some(message) = self.high.recv() => Some(message),
 			}
 		} else {
 			select! {
 				biased;
-				message = self.urgent.recv() => message,
-				message = self.high.recv() => message,
-				message = self.normal.recv() => message,
+				Some(message) = self.urgent.recv() => Some(message),
+				Some(message) = self.high.recv() => Some(message),
+				Some(message) = self.normal.recv() => Some(message),
+				else => None,
 			}
 		}
 	}
